@@ -46,13 +46,13 @@ func profileByName(name string) Profile {
 }
 
 type seqResult struct {
-	Index  int            `json:"index"`
-	Seed   int64          `json:"seed"`
-	Trace  string         `json:"trace"`
-	Ops    string         `json:"ops"`
-	NOps   int            `json:"nops"`
-	Panic  string         `json:"panic,omitempty"`
-	Hist   map[string]int `json:"hist"`
+	Index int            `json:"index"`
+	Seed  int64          `json:"seed"`
+	Trace string         `json:"trace"`
+	Ops   string         `json:"ops"`
+	NOps  int            `json:"nops"`
+	Panic string         `json:"panic,omitempty"`
+	Hist  map[string]int `json:"hist"`
 }
 
 func runSeq(idx int, seed int64, nops int, size uint64, prof string, unstable bool, outdir string) (res seqResult) {
